@@ -1,4 +1,5 @@
 mod big;
+mod book16;
 mod book17;
 mod book18;
 mod book20;
@@ -107,6 +108,7 @@ fn main() {
             let full = argv.get(5).map(|s| s == "full").unwrap_or(false);
             match which {
                 "c13" => native::c13(n, seed, full),
+                "c16" => book16::c16(),
                 "c17" => book17::c17(n, seed),
                 "c18" => book18::c18(),
                 "c20" => book20::c20(n as usize, seed),
